@@ -78,7 +78,9 @@ func (portHistWorld) Gen(seed uint64, tier string) core.Scenario {
 			op.Op = "closeOut"
 			m.outOpen = false
 		case 4:
-			if m.listener >= 0 { // at most one active listener
+			if m.listener >= 0 && !r.Chance(1, 8) {
+				// normally at most one listener; now and then a Listen while one is active:
+				// a driver may refuse it (error, nothing changes) or let it replace the old one
 				continue
 			}
 			if r.Chance(1, 2) {
@@ -111,6 +113,9 @@ func (portHistWorld) Gen(seed uint64, tier string) core.Scenario {
 			k := 1
 			if r.Chance(1, 5) {
 				k = r.Range(2, 3)
+			}
+			if r.Chance(1, 12) {
+				k = 0 // an empty chunk: nothing to deliver, but the port state still decides the result
 			}
 			for i := 0; i < k; i++ {
 				switch r.Weighted(70, 15, 15) {
@@ -146,9 +151,6 @@ func (s *PortHist) valid() bool {
 			}
 			m.inOpen = false
 		case "listen", "listenTo":
-			if m.listener >= 0 {
-				return false
-			}
 			if op.Op == "listen" && !m.inOpen {
 				return false
 			}
@@ -295,7 +297,15 @@ func (s *PortHist) Run(env *core.Env, st *core.Stats) (vs []core.Violation) {
 					})
 					m.inOpen = true
 				}
-				if err != nil || stop == nil {
+				if m.listener >= 0 {
+					st.Probe("listen-while-a-listener-is-active")
+					if err != nil {
+						// refused: nothing changes, the refused call has no stop function to use
+						stops[id] = func() {}
+						break
+					}
+					// accepted: the new listener replaces the old one
+				} else if err != nil || stop == nil {
 					fail("listen-works", "listen-error", "op %d: %s failed: %v", i, op.Op, err)
 					return
 				}
@@ -322,6 +332,9 @@ func (s *PortHist) Run(env *core.Env, st *core.Stats) (vs []core.Violation) {
 				drv.Sleep(time.Duration(op.Ms) * time.Millisecond)
 			case "send":
 				before := len(calls)
+				if len(op.Data) == 0 {
+					st.Probe("send-of-empty-chunk")
+				}
 				err := out.Send(append([]byte{}, op.Data...))
 				got := calls[before:]
 				switch {
@@ -353,6 +366,17 @@ func (s *PortHist) Run(env *core.Env, st *core.Stats) (vs []core.Violation) {
 					// expected: exactly the messages of the chunk, to the active listener, during the call
 					rx := &ref.Rx{}
 					want := rx.Feed(op.Data, 0, 0)
+					{
+						var mine []cbRec
+						for _, g := range got {
+							if g.listener == m.listener {
+								mine = append(mine, g)
+							} else if m.stopped[g.listener] {
+								fail("no-callback-after-stop", "callback-after-stop", "op %d: listener #%d was called although its stop function has returned", i, g.listener)
+							}
+						}
+						got = mine
+					}
 					if len(got) != len(want) {
 						key := "missing"
 						if len(got) > len(want) {
